@@ -2388,6 +2388,38 @@ pub fn features(p: &Prog) -> Vec<String> {
                 if !asg_lams.is_empty() {
                     add("lambda_assigns_captured_variable");
                 }
+                // names bound to lambdas that mention a variable which is assigned somewhere in this function (by the
+                // frame or by any lambda): passing such a closure to a function closes (copies) the variable
+                let mut assigned: Vec<String> = vec![];
+                walk(&f.body, &mut |x| {
+                    if let E::Block(ss, _) = x {
+                        for q in ss {
+                            if let S::Assign(v, _) = q {
+                                assigned.push(v.split('.').next().unwrap().to_string());
+                            }
+                        }
+                    }
+                });
+                let mut shared_lams: Vec<String> = vec![];
+                walk(&f.body, &mut |x| {
+                    if let E::Block(ss, _) = x {
+                        for s_ in ss {
+                            if let S::Let(Pat::Var(n), E::Lambda(_, b)) = s_ {
+                                let mut hit = false;
+                                walk(b, &mut |y| {
+                                    if let E::Var(v) = y {
+                                        if assigned.contains(v) {
+                                            hit = true;
+                                        }
+                                    }
+                                });
+                                if hit {
+                                    shared_lams.push(n.clone());
+                                }
+                            }
+                        }
+                    }
+                });
                 let mut letrec = false;
                 walk(&f.body, &mut |x| {
                     if let E::Block(ss, _) = x {
@@ -2460,6 +2492,9 @@ pub fn features(p: &Prog) -> Vec<String> {
                                 }
                                 if asg_lams.contains(v) {
                                     add("assigning_closure_passed_as_argument");
+                                }
+                                if shared_lams.contains(v) {
+                                    add("closure_over_assigned_local_passed_as_argument");
                                 }
                             }
                         }
